@@ -220,6 +220,7 @@ pub fn cut_unit(ctx: &Ctx, rng: &mut Rng, o: &mut Out) {
   let mut guard_pass = 0usize;
   let mut guard_total = 0usize;
   let mut oracle_cases = 0usize;
+  let mut cli_cases = 0usize;
   for (si, src) in sources.iter().enumerate() {
     let grep = src.lang.ast_grep(&src.text);
     let root = grep.root();
@@ -241,6 +242,7 @@ pub fn cut_unit(ctx: &Ctx, rng: &mut Rng, o: &mut Out) {
     if nodes.is_empty() {
       continue;
     }
+    let mut cli_here = 0usize;
     for k in 0..(if deep { 6 } else { per_src }) {
       let n = rng.pick(&nodes);
       // k % 4 == 0: no holes at all (self match)
@@ -339,6 +341,49 @@ pub fn cut_unit(ctx: &Ctx, rng: &mut Rng, o: &mut Out) {
           );
         }
       }
+      // the command line reports it too (`sg run -p <cut> -l <language>`): the language wrapper of the
+      // CLI, its pattern pre-processing and its printer sit between the text and the matcher —
+      // the cut node must be among the matches, every single hole bound to the bytes it replaced;
+      // a few cases per source, every language
+      if !deep && !holes.is_empty() && cli_here < 2 && pat.match_node(n.clone()).is_some() {
+        cli_here += 1;
+        cli_cases += 1;
+        let exe = crate::units::procpool::sg_bin();
+        let dir = tempfile::tempdir().expect("tempdir");
+        // the walker keeps a file of the language's own extension
+        let ext = src.name.rsplit('.').next().unwrap_or("txt").split('#').next().unwrap_or("txt").to_string();
+        let file = dir.path().join(format!("cut-source.{ext}"));
+        std::fs::write(&file, &src.text).expect("write");
+        let sname = STRICT[cli_cases % STRICT.len()].0;
+        let out = crate::units::scan::run_cli(&exe, &["run", &format!("--pattern={text}"), "-l", &format!("{}", src.lang), "--strictness", sname, "--json=stream", file.to_str().unwrap()], 30);
+        let mut why = String::new();
+        match &out {
+          Err(e) => why = format!("cli: {e}"),
+          Ok(text_out) => {
+            let recs: Vec<Value> = text_out.lines().filter_map(|l| serde_json::from_str(l).ok()).collect();
+            let mine = recs.iter().find(|r| r["range"]["byteOffset"]["start"] == json!(n.range().start) && r["range"]["byteOffset"]["end"] == json!(n.range().end));
+            match mine {
+              None => why = format!("the cut node is not among the {} reported matches", recs.len()),
+              Some(r) => {
+                for h in holes.iter().filter(|h| h.run.is_none()) {
+                  let b = &r["metaVariables"]["single"][&h.name]["range"]["byteOffset"];
+                  if b["start"] != json!(h.start) || b["end"] != json!(h.end) {
+                    why = format!("hole {} bound to {}", h.name, b);
+                  }
+                }
+              }
+            }
+          }
+        }
+        if !why.is_empty() {
+          o.oracle(
+            "cut-matches",
+            false,
+            json!({"fp": format!("cut-matches command line: sg run -l {} strictness={sname}", src.lang),
+                   "lang": src.lang.to_string(), "file": src.name, "node_range": [n.range().start, n.range().end], "pattern": text, "why": why}),
+          );
+        }
+      }
       for (sname, mk) in STRICT {
         let p = pat.clone().with_strictness(mk());
         let r = run_match(&p, n, &ids);
@@ -423,7 +468,7 @@ pub fn cut_unit(ctx: &Ctx, rng: &mut Rng, o: &mut Out) {
   }
   o.oracle("cut-matches-left-nested", true, json!({"cases": nested_cases}));
   comments_in_patterns(o);
-  o.oracle("cut-matches-done", true, json!({"cases": oracle_cases, "guard_pass": guard_pass, "guard_total": guard_total}));
+  o.oracle("cut-matches-done", true, json!({"cases": oracle_cases, "guard_pass": guard_pass, "guard_total": guard_total, "command_line_cases": cli_cases}));
 }
 
 /// "structurally identical code" for two occurrences of one meta-variable
